@@ -28,6 +28,10 @@ def selftest():
     R.selftest()
 
 
+HRP_CHAIN = {'bc': 'mainnet', 'tb': 'testnet', 'bcrt': 'regtest'}
+_SEL = [None]
+
+
 def lib_decode(hrp, s):
     r = libx.call('decode', SA.decode, hrp, s)[1]
     if r == (None, None):
@@ -50,6 +54,19 @@ def cmp_decode(hrp, s, must_reject=False, same_as=None, cls=None, tag='x'):
     if cls is not None:
         k = '%s:%s' % (tag, 'acc' if exp else 'rej')
         cls[k] = cls.get(k, 0) + 1
+    chain = HRP_CHAIN.get(hrp)
+    if chain is not None:
+        # the same verdict through the class users actually call, under the chain whose prefix this is
+        if _SEL[0] != chain:
+            libx.select(chain)
+            _SEL[0] = chain
+        r = libx.call('cbech32data', CBech32Data, s, allowed=(Bech32Error,))
+        if (r[0] == 'ok') != (exp is not None):
+            raise Violation('data/%s-%s' % (tag, 'accepts' if r[0] == 'ok' else 'rejects'),
+                            'CBech32Data(%r) on %s %s, BIP173 reference says %s' % (s, chain, 'parsed' if r[0] == 'ok' else 'raised ' + type(r[1]).__name__,
+                                                                                     'valid' if exp else 'invalid'))
+        if exp is not None and (r[1].witver, bytes(r[1])) != exp:
+            raise Violation('data/%s-fields' % tag, 'CBech32Data(%r) on %s gives (v%r, %s)' % (s, chain, r[1].witver, bytes(r[1]).hex()))
     return got
 
 
@@ -142,8 +159,10 @@ def faults(s, hrp, case, cls):
                 cmp_decode(hrp, s + 'q' * k, cls=cls, tag='ext')
         cmp_decode(hrp, s.replace('1', '', 1), cls=cls, tag='nosep')
         cmp_decode(hrp, '1' + s[dp:], cls=cls, tag='nohrp')
-        cmp_decode(hrp, s + ' ', cls=cls, tag='space')
-        cmp_decode(hrp, ' ' + s, cls=cls, tag='space')
+        for ws in (' ', '\n', '\t', '\r', '\x0b', '\x0c', '\x00', '\xa0', '\u2003', '\u200b', '\ufeff'):
+            cmp_decode(hrp, s + ws, cls=cls, tag='space')
+            cmp_decode(hrp, ws + s, cls=cls, tag='space')
+            n += 2
         n += L * 2 + 140
     return n
 
@@ -182,6 +201,14 @@ def check_data(case):
             o = libx.call('from_bytes', CBech32Data.from_bytes, ver, prog)[1]
             if str(o) != s:
                 raise Violation('data/from_bytes', 'str(from_bytes(%d, %s)) = %r expected %r' % (ver, prog.hex(), str(o), s))
+            ver2 = (ver + 1) % 17
+            if R.decode(hrp, R.encode(hrp, ver2, prog) or '') is not None:
+                # an existing object handed back as the program of ANOTHER version: a new value, the first one untouched
+                o2 = libx.call('from_bytes-of-object', CBech32Data.from_bytes, ver2, o)[1]
+                if str(o2) != R.encode(hrp, ver2, prog) or o2.witver != ver2:
+                    raise Violation('data/reversion', 'program of a v%d object re-wrapped as v%d prints as %r' % (ver, ver2, str(o2)))
+                if o.witver != ver or str(o) != s or bytes(o) != prog:
+                    raise Violation('data/reversion-aliases', 're-wrapping an object under v%d changed the original' % ver2)
         elif r[0] == 'ok':
             raise Violation('data/invalid-accepted', 'CBech32Data(%r) accepted' % s)
         other = 'tb' if hrp != 'tb' else 'bc'
@@ -190,6 +217,7 @@ def check_data(case):
             raise Violation('data/foreign-hrp-accepted', 'address with HRP %r accepted on %s' % (other, chain))
     finally:
         libx.select('mainnet')
+        _SEL[0] = 'mainnet'
     return {'nt': ok, 'evals': 3, 'cls': ['data-' + chain]}
 
 
